@@ -23,7 +23,7 @@ def norm(path):
         c = path[i]
         if c == "<":
             prev = path[i - 1] if i > 0 else ""
-            is_generic = prev != "" and (prev.isalnum() or prev in "_:>")
+            is_generic = prev != "" and (prev.isalnum() or prev in "_:>") and not path.startswith("<impl ", i)
             # `::<` generic list: also remove the `::`
             if is_generic:
                 if drop == 0 and len(out) >= 2 and out[-1] == ":" and out[-2] == ":":
